@@ -1,111 +1,13 @@
 /-
-Open known findings of C18 as machine-checked counter-examples on the model (the same witnesses
+Open known finding of C18 as a machine-checked counter-example on the model (the same witness
 `harness/c18.py` replays on the implementation).  NOT part of the gating build: if the code is repaired,
-the model changes with it and these stop checking.
+the model changes with it and this stops checking.
+(The former findings 1–6 were repaired by /repo commits 7c684d5, 68fefe3, 9e4749c, 8584485; their
+statements are now theorems in `Props/C18.lean`.)
 -/
 import AsyncFix.Props.C18
 namespace AsyncFix.Findings.C18
 open AsyncFix.Py AsyncFix.Model.Container AsyncFix.Props.C18
-
-/-! text: "1"=49 "2"=50 "5"=53 "8"=56 "a"=97 "b"=98 "x"=120 "y"=121 "|"=124 "="=61 ","=44 " "=32 -/
-
-/-- C18-eq-rendered-text: `{1: "a|2=b"} == {1: "a", 2: "b"}` -/
-theorem not_eq_iff_same_content_full : ¬ eq_iff_same_content_full := by
-  intro h
-  have h1 : eq [([49], .str [97, 124, 50, 61, 98])] [([49], .str [97]), ([50], .str [98])] = true := by
-    simp [eq, render, renderFields, Val.render, joinSep]
-  have := (h _ _).1 h1
-  simp at this
-
-/-- each exclusion of `Cont.safe` is needed: a comma inside a group item … -/
-theorem eq_collision_comma :
-    eq [([53], .group [[([49], .str [97, 44, 32, 50, 61, 98])], [([51], .str [99])]])]
-       [([53], .group [[([49], .str [97])], [([50], .str [98, 44, 32, 51, 61, 99])]])] = true := by
-  simp [eq, render, renderFields, Val.render, renderItems, joinSep, natDigits_one]
-
-/-- … a string that looks like a rendered group (`1=>[2=x]`, needs `[` and `]`) … -/
-theorem eq_collision_brackets :
-    eq [([53], .str [49, 61, 62, 91, 50, 61, 120, 93])] [([53], .group [[([50], .str [120])]])] = true := by
-  simp [eq, render, renderFields, Val.render, renderItems, joinSep, natDigits_one]
-
-/-- … and a class-object value: every exception class renders as `#err#` -/
-theorem eq_collision_errclass :
-    eq [([49], .cls .tagNotFound)] [([49], .str [35, 101, 114, 114, 35])] = true := by
-  simp [eq, render, renderFields, Val.render, Cls.render, errText, joinSep]
-
-theorem plain_1a : Plain [([49], .str [97])] := by
-  intro k v h
-  simp only [lookup] at h
-  split at h
-  · simp only [Option.some.injEq] at h; exact ⟨_, h.symm⟩
-  · simp at h
-
-theorem mem_ignore_8 : ([56] : Str) ∈ ignoreStrs := by rw [ignoreStrs_eq]; simp
-theorem not_mem_ignore_1 : ([49] : Str) ∉ ignoreStrs := by rw [ignoreStrs_eq]; simp
-
-/-- C18-eqdict-framing-tag-raises: `FIXContainer({1:"a"}) == {"8":"y", "1":"a"}` raises TagNotFoundError -/
-theorem eqDict_framing_raises :
-    eqDict [([49], .str [97])] [(.str [56], .str [121]), (.str [49], .str [97])] = .error .tagNotFound := by
-  rw [eqDict_unfold]
-  have h : tagSetsAgree [([49], .str [97])] [(.str [56], .str [121]), (.str [49], .str [97])] = true := by
-    simp [tagSetsAgree, ignoreStrs_eq, sameSet, keys, PyObj.pyStr]
-  simp [h, eqDictLoop_cons, lookup, PyObj.pyStr]
-
-theorem not_eqDict_full : ¬ eqDict_full := by
-  intro h
-  obtain ⟨b, hb, _⟩ := h [([49], .str [97])] [(.str [56], .str [121]), (.str [49], .str [97])] plain_1a
-  rw [eqDict_framing_raises] at hb
-  simp at hb
-
-/-- C18-eqdict-framing-tag-compared: `{8:"x",1:"a"} == {"8":"y","1":"a"}` is False although only a framing
-tag differs -/
-theorem eqDict_framing_compared :
-    eqDict [([56], .str [120]), ([49], .str [97])] [(.str [56], .str [121]), (.str [49], .str [97])] = .ok false := by
-  rw [eqDict_unfold]
-  have h : tagSetsAgree [([56], .str [120]), ([49], .str [97])] [(.str [56], .str [121]), (.str [49], .str [97])] = true := by
-    simp [tagSetsAgree, ignoreStrs_eq, sameSet, keys, PyObj.pyStr]
-  simp [h, eqDictLoop_cons, lookup, PyObj.pyStr]
-
-theorem eqDict_framing_compared_same_content :
-    SameContentIgnoringFraming [([56], .str [120]), ([49], .str [97])] [(.str [56], .str [121]), (.str [49], .str [97])] := by
-  constructor
-  · intro k hk
-    simp only [keys, List.map_cons, List.map_nil, List.mem_cons, List.not_mem_nil, or_false, PyObj.pyStr,
-      exists_eq_or_imp, exists_eq_left]
-    constructor
-    · rintro (h | h)
-      · subst h; exact absurd mem_ignore_8 hk
-      · exact Or.inr h.symm
-    · rintro (h | h)
-      · subst h; exact absurd mem_ignore_8 hk
-      · exact Or.inr h.symm
-  · intro p hp hi
-    simp only [List.mem_cons, List.not_mem_nil, or_false] at hp
-    rcases hp with hp | hp
-    · subst hp; exact absurd mem_ignore_8 hi
-    · subst hp; simp [lookup, PyObj.pyStr]
-
-theorem not_intLike_x : intLike [120] = false := by decide
-
-/-- C18-group-tag-not-checked: `FIXContainer().add_group("x", {})` succeeds -/
-theorem not_nonint_tag_refused_full : ¬ nonint_tag_refused_full := by
-  intro h
-  have := h [] (.addGroup (.str [120]) (.dict []) (-1)) [120] rfl not_intLike_x (by intro t; simp)
-  simp [step, Op.apply, addGroup, DItem.toCont, fromDict, buildDict, PyObj.pyStr, lookup] at this
-
-/-- C18-by-index-indexerror: one item, index -2 → IndexError instead of TagNotFoundError -/
-theorem not_get_group_by_index_errors_full : ¬ get_group_by_index_errors_full := by
-  intro h
-  have := h [([53], .group [[]])] (.str [53]) [[]] (-2) (by simp [getGroupList, lookup, PyObj.pyStr])
-    (by left; decide)
-  simp [getGroupByIndex, getGroupList, lookup, PyObj.pyStr] at this
-
-/-- C18-add-group-plain-tag-attributeerror: `FIXContainer({1:"a"}).add_group(1, {})` raises AttributeError -/
-theorem not_add_group_errors_full : ¬ add_group_errors_full := by
-  intro h
-  have := h [([49], .str [97])] (.str [49]) (.dict []) (-1) .attributeError
-    (by simp [addGroup, DItem.toCont, fromDict, buildDict, PyObj.pyStr, lookup])
-  simp at this
 
 theorem pyInt_01 : pyIntOfString [48, 49] = some 1 := by decide
 
@@ -116,11 +18,5 @@ theorem not_get_after_set_any_spelling_full : ¬ get_after_set_any_spelling_full
   have := h [] [([48, 49], .str [97])] [48, 49] 1 (.str [97]) pyInt_01
     (by simp [Model.Container.set, PyObj.pyStr, hi, dictSet])
   simp [Model.Container.get, PyObj.pyStr, r1, lookup, getCls] at this
-
-/-- not a finding (intended, used by the decoder for error markers), recorded for completeness: a class
-object as value bypasses the duplicate check -/
-theorem class_value_bypasses_duplicate_check :
-    Model.Container.set [([49], .str [97])] (.str [49]) (.cls .repeating) false = .ok [([49], .cls .repeating)] := by
-  simp [Model.Container.set, PyObj.pyStr, il1, dictSet]
 
 end AsyncFix.Findings.C18
